@@ -17,6 +17,7 @@ type c06Scan struct {
 	g        *core.FuncInfo
 	onBefore func(ast.Expr) bool // the expression denotes the event's HighestBefore vector (in g)
 	isN      func(ast.Expr) bool // the expression denotes the examined validator index (in g)
+	isBr     func(ast.Expr) bool // the expression denotes the examined validator's branch list handed to g (may be nil)
 	hits     []core.Point
 	hitNode  ast.Node // the first hit (its enclosing loops are the pair loops)
 	hitPos   token.Pos
@@ -34,6 +35,9 @@ func c06PairScan(c *core.Ctx, sc c06Scan) {
 	itB, okB := core.IterationOf(g, lB, res)
 	c.Need(okA && okB && itA.Head != nil && itB.Head != nil && len(itB.Head.Succs) > 0, "the pair loops are recognisable iterations")
 	branches := func(e ast.Expr) bool {
+		if sc.isBr != nil && sc.isBr(e) {
+			return true
+		}
 		ix, isIx := res(e).(*ast.IndexExpr)
 		if !isIx {
 			return false
@@ -182,7 +186,8 @@ func c06Detect(c *core.Ctx) {
 				if sig == nil || sig.Results().Len() != 1 || !types.Identical(sig.Results().At(0).Type().Underlying(), types.Typ[types.Bool]) {
 					continue
 				}
-				var pBefore, pN *types.Var
+				// the helper is given the vector and either the validator index or that validator's branch list
+				var pBefore, pN, pBr *types.Var
 				for i, a := range cs.Call.Args {
 					if i >= sig.Params().Len() {
 						break
@@ -191,9 +196,16 @@ func c06Detect(c *core.Ctx) {
 						pBefore = h.Param(i)
 					} else if isN(a) {
 						pN = h.Param(i)
+					} else if ix, isIx := res(a).(*ast.IndexExpr); isIx && isN(ix.Index) {
+						if _, pth := fieldPath(f, ix.X); len(pth) >= 1 && pth[len(pth)-1] == "vecengine.BranchesInfo.BranchIDByCreators" {
+							pBr = h.Param(i)
+						}
 					}
 				}
-				if pBefore == nil || pN == nil {
+				if pBr != nil && len(assignsToVar(h, pBr)) > 0 {
+					pBr = nil // the list parameter is replaced inside the helper
+				}
+				if pBefore == nil || (pN == nil && pBr == nil) {
 					continue
 				}
 				call := cs.Call
@@ -231,8 +243,9 @@ func c06Detect(c *core.Ctx) {
 				sc = c06Scan{g: h, hitNode: hits[0].Node(),
 					onBefore: func(e ast.Expr) bool { return varOf(h, resolveLocal(h, e)) == pBefore },
 					isN: func(e ast.Expr) bool {
-						return varOf(h, resolveLocal(h, core.StripConv(h.Info(), resolveLocal(h, e)))) == pN
+						return pN != nil && varOf(h, resolveLocal(h, core.StripConv(h.Info(), resolveLocal(h, e)))) == pN
 					},
+					isBr: func(e ast.Expr) bool { return pBr != nil && varOf(h, resolveLocal(h, e)) == pBr },
 					hits: hits, hitPos: posOf(hits[0])}
 				// two-sided in the caller: a positive answer always leads to the mark
 				for _, e := range edgesWithFact(f, isH) {
